@@ -1470,10 +1470,29 @@ void mesh_node_stop(const NodeView &view, DateTime evaluation_time) {
   auto output_dict = output.as_dict();
   auto output_mutation = output_dict.begin_mutation(evaluation_time);
 
+  // Best-effort, like Graph::stop: every live instance gets its stop attempt
+  // here and the first failure is re-raised once the instances are cleared, so
+  // it reaches the caller (the retirement path below swallows stop failures).
+  FirstExceptionRecorder exceptions;
+  if (storage.instance_keys.has_value()) {
+    for (std::size_t slot = 0; slot < storage.instance_keys->slot_capacity();
+         ++slot) {
+      if (!storage.instance_keys->slot_live(slot)) {
+        continue;
+      }
+      MeshEntry *entry = storage.entries.entry_at(slot);
+      if (entry != nullptr && entry->graph.has_value() &&
+          entry->graph.view().started()) {
+        exceptions.capture([&] { entry->graph.view().stop(); });
+      }
+    }
+  }
+
   stop_and_clear_all_instances(
       view, *static_cast<const MeshNodeContext *>(mesh_view.internal_context()),
       storage, evaluation_time);
   output_mutation.clear();
+  exceptions.rethrow_if_any();
 }
 } // namespace
 
